@@ -2,6 +2,7 @@ package vc
 
 import (
 	"fmt"
+	"go/types"
 	"strings"
 
 	"gocv/spec"
@@ -47,7 +48,9 @@ func (f *frame) loopFrameAssume(li *loopInfo, keys []string, cur *State, reach T
 			if m.key != k {
 				continue
 			}
-			if m.whole {
+			if m.all {
+				cover = append(cover, m.condOrTrue())
+			} else if m.whole {
 				cover = append(cover, And(m.condOrTrue(), Eq(ot, m.obj)))
 			} else {
 				cover = append(cover, And(m.condOrTrue(), Eq(ot, m.obj), Le(m.lo, jt), Lt(jt, m.hi)))
@@ -119,5 +122,78 @@ func (f *frame) dynSpec(cm *ssa.CallCommon) *spec.FuncSpec {
 	if name, ok := f.spec.DynCalls[f.dynOrdinal(cm)]; ok {
 		return f.vc.P.FnSpecs[name]
 	}
+	return nil
+}
+
+// dispatchCall executes an interface method call whose interface spec lists its
+// implementations (`dispatch *A, *B`): under each dynamic type the call is the
+// static call of that type's method (its contract, or its body when it has
+// none), and a `dispatch` safety obligation demands that the dynamic type is
+// one of those listed.
+func (f *frame) dispatchCall(v ssa.Value, sp *spec.FuncSpec, cm *ssa.CallCommon, args []Term, g Term, st *State) error {
+	vc := f.vc
+	tt := vc.tt
+	recv := args[0]
+	env := &Env{vc: vc, pkg: vc.pkgOf(nil, sp)}
+	sig := cm.Signature()
+	var conds []Term
+	var sts []*State
+	var ress [][]Term
+	for _, tn := range sp.Dispatch {
+		T, err := env.lookupType(tn)
+		if err != nil {
+			return fmt.Errorf("%s:%d: dispatch: %v", sp.File, sp.Line, err)
+		}
+		fn := vc.P.SSA.LookupMethod(T, cm.Method.Pkg(), cm.Method.Name())
+		if fn == nil {
+			return fmt.Errorf("%s:%d: dispatch: %s has no method %s", sp.File, sp.Line, tn, cm.Method.Name())
+		}
+		cond := vc.define(f.pfx+"disp", Eq(ITag(recv), IntLit(int64(tt.tag(T)))))
+		br := st.clone()
+		var self Term
+		if tt.sort(T) == SPtr {
+			self = IPl(recv)
+		} else {
+			pl := IPl(recv)
+			self = vc.load(br, T, PObj(pl), POff(pl))
+		}
+		vc.assume(And(g, cond), tt.wf(T, self, br.Alloc))
+		a := append([]Term{self}, args[1:]...)
+		guard := And(g, cond)
+		var rs []Term
+		csp := vc.P.Specs[FuncKey(fn)]
+		if csp == nil || csp.Inline {
+			if len(fn.Blocks) == 0 || f.depth >= 6 {
+				return fmt.Errorf("dispatch: %s has neither contract nor body", FuncKey(fn))
+			}
+			rs, err = f.inlineCall(fn, nil, a, guard, br)
+		} else {
+			var tys []types.Type
+			for _, p := range fn.Params {
+				tys = append(tys, p.Type())
+			}
+			rs, err = f.applySpec(csp, fn, fn.Signature, false, a, tys, guard, br, v)
+		}
+		if err != nil {
+			return err
+		}
+		conds = append(conds, cond)
+		sts = append(sts, br)
+		ress = append(ress, rs)
+	}
+	f.safety("dispatch", g, Or(conds...), instrOf(v, f))
+	m := vc.merge(conds, sts)
+	*st = *m
+	n := sig.Results().Len()
+	results := make([]Term, n)
+	for i := 0; i < n; i++ {
+		t := ress[len(ress)-1][i]
+		for k := len(ress) - 2; k >= 0; k-- {
+			t = Ite(conds[k], ress[k][i], t)
+		}
+		t.Sort = tt.sort(sig.Results().At(i).Type())
+		results[i] = vc.define(f.pfx+"dispres", t)
+	}
+	f.setResults(v, sig, results)
 	return nil
 }
